@@ -2,6 +2,7 @@ package main
 
 import (
 	"fmt"
+	"reflect"
 
 	"github.com/karagenc/socket.io-go/parser"
 )
@@ -46,6 +47,35 @@ func sequencePairs(c parser.Creator) (fs []finding, pairs int) {
 		att  int
 		err  string
 	}
+	// render decodes a finished packet into the types it was emitted with and prints the values
+	render := func(p *packet, d parser.Decode) string {
+		if d == nil {
+			return "<no decode function>"
+		}
+		var nodes []*node
+		if p.hasArgs() {
+			nodes = p.Args
+		} else if cn := p.ctlNode(); cn != nil {
+			nodes = []*node{cn}
+		}
+		types := make([]reflect.Type, len(nodes))
+		for i, n := range nodes {
+			types[i] = staticType(n)
+		}
+		vals, err, pan := safeDecode(d, types...)
+		if err != nil || pan != nil {
+			return fmt.Sprint("decode failed: ", err, pan)
+		}
+		out := ""
+		for _, v := range vals {
+			for v.IsValid() && v.Kind() == reflect.Ptr && !v.IsNil() {
+				v = v.Elem()
+			}
+			out += fmt.Sprintf("%#v;", v)
+		}
+		return out
+	}
+	var lastDecode parser.Decode
 	feed := func(dec parser.Parser, p *packet) decoded {
 		frames, err, pan := safeEncode(c(), buildHeader(p), buildPayload(p))
 		if err != nil || pan != nil {
@@ -56,6 +86,7 @@ func sequencePairs(c parser.Creator) (fs []finding, pairs int) {
 		for _, f := range copyFrames(frames) {
 			err, pan := safeAdd(dec, f, func(h *parser.PacketHeader, name string, d parser.Decode) {
 				calls++
+				lastDecode = d
 				out = decoded{typ: h.Type, ns: h.Namespace, name: name, att: h.Attachments}
 				if h.ID != nil {
 					out.id = fmt.Sprint(*h.ID)
@@ -78,10 +109,22 @@ func sequencePairs(c parser.Creator) (fs []finding, pairs int) {
 			pairs++
 			fresh := feed(c(), p2)
 			dec := c()
+			lastDecode = nil
 			first := feed(dec, p1)
+			d1 := lastDecode
+			at1 := ""
+			if first.err == "" {
+				at1 = render(p1, d1)
+			}
 			second := feed(dec, p2)
 			if first.err != "" {
 				continue // judged by the single-packet oracles
+			}
+			// the application decodes a packet on its own goroutine, possibly after the connection's parser has
+			// gone on to the next packet: a late decode gives what an immediate one gave
+			if late := render(p1, d1); late != at1 {
+				fs = append(fs, finding{"a packet decoded after the parser has taken the next packet differs from the same packet decoded at once",
+					fmt.Sprintf("packet %s followed by %s: decoded at once %s, decoded after the second packet %s", p1, p2, at1, late)})
 			}
 			if second != fresh {
 				fs = append(fs, finding{"decoding depends on the packet decoded before (one parser per connection)",
